@@ -222,6 +222,7 @@ func c01DegenerateForms() []string {
 		"a = \"日本語\"; a[len(a)] = \"x\"; a", "a = [\"日本語\"]; a[0][7] = \"x\"; a", "a = \"日本語\"; for c in a { c }", "a = \"é\"; a[1:2][0]", "a = \"日本語\"; a[2:5:7]", "\"日本語\"[4]", "a = \"\\xff\\xfe\"; a[1]",
 		"a = \"日本語\"; a[1.5]", "a = \"日本語\"; a[\"2\"]", "a = \"日本語\"; delete(a, 1)", "a = \"é\" * 3; a[5]", "a = \"é\"; a += \"ü\"; a[3]", "a = \"é\"; (\"x\" + a)[2]",
 		// Go arrays bound by the host: every operator and bracket form on them
+		"arr[2] = 9", "q = arr; q[len(q)] = 9", "arrs[0][2] = 1", "earr[0] = \"x\"", "q = arr; q[2] = 9; q", "arr[len(arr)] = arr", "(arr)[2] = 1", "[arr][0][2] = 1", "hid(arr)[2] = 1",
 		"arr + 1", "arr + [3]", "[3] + arr", "arr += 1", "arr[0:1]", "arr[0:1:2]", "arr[:]", "arr[1:]", "v = arr; v[0:1]", "arrs[0] + 1", "arrs[0][0:1]", "arrs[0] += arrs[0]", "arr + arr", "arr + nothing",
 		"arr + \"s\"", "\"s\" + arr", "arr * 2", "arr - arr", "-arr", "arr[0] = 1", "arr[2]", "arr.x", "arr()", "arr <- 1", "delete(arr, 0)", "for i, v in arr { }", "arr == arr", "arr in [arr]", "[arr...]", "add(arr...)",
 		"len(arr)", "arr ? 1 : 2", "arr ?? 1", "x, y = arr", "var x, y = arr", "[]int64{arr}", "{arr: 1}", "{1: 2}[arr]", "arr[arr]", "[1, 2][arr]", "parr + 1", "parr[0:1]", "*parr + 1", "(*parr)[0:1]", "earr + 1", "earr[0:0]",
